@@ -31,6 +31,15 @@ func c16Specs() []*bfsSpec {
 		{Name: "c16-nonfast", Cfg: worldCfg{Geom: "gshort", Peers: []peerCfg{{}}, Have: []int{0, 2}, AutoDrain: true}, Alphabet: up, Depth: 5, DepthT: 7},
 		{Name: "c16-fast", Cfg: worldCfg{Geom: "gshort", Peers: []peerCfg{{Fast: true, Ext: true, DontHave: 7}}, Have: []int{0, 2}, AutoDrain: true},
 			Setup: []string{"interested:0", "unchokepeer:0"}, Alphabet: append([]string{"flood:0:251", "req:0:0:0:4294967295"}, up...), Depth: 5, DepthT: 6},
+		// start from a congested state: the remote has stopped reading with a full
+		// request queue, so storrent's writer is blocked and its choke/reject
+		// paths run into write timeouts
+		{Name: "c16-fast-congested", Cfg: worldCfg{Geom: "gshort", Peers: []peerCfg{{Fast: true, Ext: true, DontHave: 7}}, Have: []int{0, 2}, AutoDrain: true},
+			Setup: []string{"interested:0", "unchokepeer:0", "stall:0", "flood:0:251", "adv:2"},
+			Alphabet: []string{"notinterested:0", "interested:0", "chokepeer:0", "unchokepeer:0", "utick", "adv:2", "advms:300", "resume:0", "stall:0", "req:0:2:16384:100", "ucancel:0", "evict", "close:0"}, Depth: 5, DepthT: 7},
+		{Name: "c16-nonfast-congested", Cfg: worldCfg{Geom: "gshort", Peers: []peerCfg{{}}, Have: []int{0, 2}, AutoDrain: true},
+			Setup: []string{"interested:0", "unchokepeer:0", "stall:0", "flood:0:251", "adv:2"},
+			Alphabet: []string{"notinterested:0", "interested:0", "chokepeer:0", "unchokepeer:0", "utick", "adv:2", "advms:300", "resume:0", "stall:0", "req:0:2:16384:100", "ucancel:0", "evict", "close:0"}, Depth: 5, DepthT: 7},
 		{Name: "c16-2remotes", Cfg: worldCfg{Geom: "g2x2", Peers: []peerCfg{{Fast: true}, {}}, Have: []int{0, 1}, AutoDrain: true},
 			Alphabet: []string{"interested:0", "interested:1", "notinterested:0", "utick", "unchokepeer:0", "unchokepeer:1", "chokepeer:0", "req:0:0:0:16384", "req:1:1:16384:16384", "ucancel:1",
 				"advms:300", "close:0", "close:1", "stall:1", "resume:1", "evict"},
